@@ -352,6 +352,57 @@ pub fn run(tier: Tier, seed: u64) -> i32 {
         }
     });
 
+    // ---- brackets inside literals are not nesting ------------------------------------------------
+    // (a string, raw string or regex full of parentheses nests nothing)
+    {
+        let leaves = [
+            "s == \"((((((((((\"",
+            "s contains \")))(((\"",
+            "s matches \"^(a(b(c(d))))$\"",
+            "s == r#\"((((\"#",
+            "s wildcard \"(*(\"",
+            "s in {\"((\" \"(((\"}",
+            "idb(s) == \"((((\"",
+        ];
+        for d in 0..=max_d.min(4) {
+            for n in 0..=(d as usize + 1) {
+                for leaf in leaves {
+                    for (open, close, per) in [("(", ")", 1usize), ("not ", "", 1), ("!(", ")", 2)] {
+                        // a call as leaf nests once more by itself; `!(` nests twice per repetition
+                        let own = if leaf.starts_with("idb(") { 1 } else { 0 };
+                        let reps = n / per;
+                        let text = format!("{}{leaf}{}", open.repeat(reps), close.repeat(reps));
+                        let n = reps * per;
+                        let want = n + own <= d as usize;
+                        let got = parse_with(&scheme, d, &text).map(|r| r.is_ok());
+                        run.eval(1);
+                        run.count("literal_bracket_cases", 1);
+                        if got != Ok(want) {
+                            run.violation(
+                                format!("{ID}:literal-brackets:{d}:{text}"),
+                                format!("max_nesting_depth={d}: {text:?} has nesting {} (the brackets inside the literal nest nothing): engine {got:?}, expected accepted={want}", n + own),
+                                json!({"kind": "c13-literal", "text": text, "limit": d}),
+                            );
+                        }
+                    }
+                }
+            }
+        }
+        // the default limit with 200 brackets inside a literal
+        for text in [format!("s == \"{}\"", "(".repeat(200)), format!("s matches \"{}a{}\"", "(".repeat(200), ")".repeat(200)), format!("(s contains \"{}\")", "(".repeat(129))] {
+            let got = guarded(|| scheme.parse(&text).is_ok());
+            run.eval(1);
+            run.count("literal_bracket_cases", 1);
+            if got != Ok(true) {
+                run.violation(
+                    format!("{ID}:literal-brackets:default:{}", &text[..20]),
+                    format!("default limit: {:?}... (brackets inside a literal only) was {got:?}, expected accepted", &text[..40]),
+                    json!({"kind": "c13-literal", "text": text, "limit": 128}),
+                );
+            }
+        }
+    }
+
     // ---- parse_value with call nests ---------------------------------------------------------------
     for d in 0..=max_d {
         for n in 0..=(max_d as usize + 1) {
